@@ -22,6 +22,7 @@ func extractAll(p *pkg, f *facts) {
 	connFacts(p, f)
 	serverFacts(p, f)
 	glueFacts(p, f)
+	campaign5Facts(p, f)
 }
 
 func (p *pkg) constNat(f *facts, leanName, goName string) {
